@@ -9,6 +9,9 @@ mod util;
 
 mod mon_c01;
 mod mon_c02;
+mod mon_c03;
+mod readers;
+mod textgen;
 mod mon_c04;
 mod refzinc;
 mod mon_c10;
@@ -100,6 +103,7 @@ fn main() {
     match prop.as_str() {
         "C01" => mon_c01::run(&mut ctx),
         "C02" => mon_c02::run(&mut ctx),
+        "C03" => mon_c03::run(&mut ctx),
         "C04" => mon_c04::run(&mut ctx),
         "C10" => mon_c10::run(&mut ctx),
         "C12" => mon_c12::run(&mut ctx),
